@@ -142,16 +142,26 @@ func NewWorldAccts(names []string, acctsOf func(string) []Acct) *World {
 				continue
 			}
 			dc := w.Chains[d]
-			h := dc.LastHdr
-			cs := xibctmtypes.NewClientState(dc.ChainID, xibctmtypes.DefaultTrustLevel, 14*24*time.Hour, 21*24*time.Hour, time.Hour,
-				h.GetHeight().(clienttypes.Height), commitmenttypes.GetSDKSpecs(), commitmenttypes.MerklePrefix{KeyPrefix: []byte("xibc")}, 0)
-			must(c.App.XIBCKeeper.ClientKeeper.CreateClient(c.Ctx(), dc.ChainID, cs, h.ConsensusState()))
+			tc := dc // the chain whose headers the client named after d follows (d itself, except in the hub world)
+			if worldTrack != nil {
+				tc = w.Chains[worldTrack(n, d)]
+			}
+			h := tc.LastHdr
+			must(c.App.XIBCKeeper.ClientKeeper.CreateClient(c.Ctx(), dc.ChainID, w.tmClientState(tc, h), h.ConsensusState()))
 			chains = append(chains, dc.ChainID)
 			addrs = append(addrs, dc.Accts[AcctRelayer].Acc.String())
 		}
 		c.App.XIBCKeeper.ClientKeeper.RegisterRelayers(c.Ctx(), c.Accts[AcctRelayer].Acc.String(), chains, addrs)
 	}
 	return w
+}
+
+// worldTrack, when set, names the chain whose headers the client called `name` on chain `on` follows (hub world).
+var worldTrack func(on, name string) string
+
+func (w *World) tmClientState(tc *Chain, h *xibctmtypes.Header) *xibctmtypes.ClientState {
+	return xibctmtypes.NewClientState(tc.ChainID, xibctmtypes.DefaultTrustLevel, 14*24*time.Hour, 21*24*time.Hour, time.Hour,
+		h.GetHeight().(clienttypes.Height), commitmenttypes.GetSDKSpecs(), commitmenttypes.MerklePrefix{KeyPrefix: []byte("xibc")}, 0)
 }
 
 // Retoggle: governance replaces chain cn's client of dn by a TSS client and then by a fresh Tendermint client at dn's
@@ -256,12 +266,17 @@ func (w *World) absHeightOf(n string, real uint64) int {
 
 // UpdateClient submits the header of abstract height k of chain d to chain c, signed by account idx.
 func (w *World) UpdateClient(cn, dn string, k int, signer int) TxResult {
+	return w.UpdateClientNamed(cn, w.Chains[dn].ChainID, dn, k, signer)
+}
+
+// UpdateClientNamed submits the header of abstract height k of chain dn to the client called `name` on chain cn.
+func (w *World) UpdateClientNamed(cn, name, dn string, k int, signer int) TxResult {
 	c, d := w.Chains[cn], w.Chains[dn]
 	hd, ok := d.Hdrs[w.RealHeight(dn, k)]
 	if !ok {
 		return TxResult{Code: 999, Log: "no such header"}
 	}
-	cs, found := c.App.XIBCKeeper.ClientKeeper.GetClientState(c.Ctx(), d.ChainID)
+	cs, found := c.App.XIBCKeeper.ClientKeeper.GetClientState(c.Ctx(), name)
 	if !found {
 		return TxResult{Code: 998, Log: "no client"}
 	}
@@ -271,7 +286,7 @@ func (w *World) UpdateClient(cn, dn string, k int, signer int) TxResult {
 	if !trusted.LT(hh) {
 		best := clienttypes.Height{}
 		c.App.XIBCKeeper.ClientKeeper.IterateConsensusStates(c.Ctx(), func(chainName string, cs clienttypes.ConsensusStateWithHeight) bool {
-			if chainName == d.ChainID && cs.Height.LT(hh) && best.LT(cs.Height) {
+			if chainName == name && cs.Height.LT(hh) && best.LT(cs.Height) {
 				best = cs.Height
 			}
 			return false
@@ -285,7 +300,7 @@ func (w *World) UpdateClient(cn, dn string, k int, signer int) TxResult {
 	tv, err := d.Vals.ToProto()
 	must(err)
 	cp.TrustedValidators = tv
-	msg, err := clienttypes.NewMsgUpdateClient(d.ChainID, &cp, c.Accts[signer].Acc)
+	msg, err := clienttypes.NewMsgUpdateClient(name, &cp, c.Accts[signer].Acc)
 	must(err)
 	return c.DeliverMsgs(c.Accts[signer], msg)
 }
